@@ -24,7 +24,7 @@ from concurrent.futures import ThreadPoolExecutor
 sys.path.insert(0, os.path.dirname(os.path.dirname(os.path.abspath(__file__))))
 from sim import report  # noqa: E402
 from sim.choices import Choices, derive_seed, shrink  # noqa: E402
-from sim.cgen import gen_unit, gen_project  # noqa: E402
+from sim.cgen import gen_unit, gen_project, gen_c3_unit  # noqa: E402
 
 PROP = "C30"
 HERE = os.path.dirname(os.path.abspath(__file__))
@@ -106,6 +106,8 @@ def gen_subject(ch, sid, tier, chosen):
             outs.append("img")
         if ch.chance(1, 6, "exe"):
             outs.append("exe")
+        if ch.chance(1, 6, "hex"):
+            outs.append("hex")
         ops.append({"id": f"s{sid}-{t}-O{opt}", "src": src, "march": t,
                     "opt": opt, "debug": bool(ch.chance(1, 5, "debug")),
                     "outputs": outs})
@@ -180,6 +182,20 @@ def gen_asm_ops(ch, b, chosen):
     return ops
 
 
+def gen_c3_ops(ch, b, chosen):
+    ops = []
+    cands = [t for t in chosen if t in RICH + MID]
+    for n in range(ch.weighted([2, 2, 1], "nc3") if cands else 0):
+        t = ch.pick(cands, "c3target")
+        opt = ch.pick(OPTS, "c3opt")
+        outs = ["obj"] + (["img", "hex"] if ch.chance(1, 3, "c3img") else [])
+        ops.append({"id": f"c3_{b}.{n}-{t}-O{opt}", "lang": "c3",
+                    "src": gen_c3_unit(ch, f"{b}_{n}"), "march": t,
+                    "opt": opt, "debug": bool(ch.chance(1, 5, "c3debug")),
+                    "outputs": outs})
+    return ops
+
+
 def gen_project_ops(ch, b, chosen):
     """Multi-module programs: archive + link with libraries."""
     ops = []
@@ -232,6 +248,7 @@ def gen_batch(seed, b):
         ops += gen_subject(ch, f"{b}.{sid}", tier, chosen)
     ops += gen_asm_ops(ch, b, chosen)
     ops += gen_project_ops(ch, b, chosen)
+    ops += gen_c3_ops(ch, b, chosen)
     runs = []
     k = 4
     for r in range(k):
@@ -478,7 +495,7 @@ def main():
 
 
 def explore(tier, seed, args, sw):
-    nb = args.batches or {"quick": 40, "thorough": 900}[tier]
+    nb = args.batches or {"quick": 32, "thorough": 900}[tier]
     workers = int(os.environ.get("VERIF_WORKERS", "0")) or \
         min(16, os.cpu_count() or 1)
     batches = [gen_batch(seed, b) for b in range(nb)]
